@@ -6,9 +6,9 @@ From RaftV Require Export Node.Leader.
 Open Scope N_scope.
 
 Inductive cstate := CPending | CAnswered | CWaiting | CDone.
-Record call := { c_id : N; c_src : nid; c_dst : nid; c_round : N; c_req : request;
+Record call := { c_id : N; c_src : nid; c_dst : nid; c_round : N; c_fgen : N (* the follower object the sending goroutine holds *); c_req : request;
                  c_resp : option response; c_state : cstate }.
-#[export] Instance eta_call : Settable _ := settable! Build_call <c_id; c_src; c_dst; c_round; c_req; c_resp; c_state>.
+#[export] Instance eta_call : Settable _ := settable! Build_call <c_id; c_src; c_dst; c_round; c_fgen; c_req; c_resp; c_state>.
 
 Record world := { w_nodes : list node; w_calls : list call; w_now : N; w_next_call : N; w_next_fid : N }.
 #[export] Instance eta_world : Settable _ := settable! Build_world <w_nodes; w_calls; w_now; w_next_call; w_next_fid>.
@@ -29,6 +29,7 @@ Inductive label :=
 | LRestart (n : nid)
 | LBudget (n : nid) (k : N)              (* arm the crash point: n freezes at its (k+1)-th storage write from now *)
 | LPad (n : nid) (k : N)                 (* harness configuration: n's state machine pads its snapshots with k zero bytes *)
+| LDefer (n : nid)                       (* scheduler: the goroutine at the head of n's run queue takes the lock after the others *)
 (* goroutines / loops taking the lock; [settle] fires these *)
 | LTask (n : nid)
 | LElectionRun (n : nid) | LCommit (n : nid) | LApply (n : nid) | LRo (n : nid)
@@ -40,8 +41,8 @@ Definition set_node (w : world) (n : node) : world :=
 Definition get_call (w : world) (id : N) : option call := find (fun c => c_id c =? id) (w_calls w).
 Definition set_call (w : world) (c : call) : world :=
   w <| w_calls ::= map (fun d => if c_id d =? c_id c then c else d) |>.
-Definition new_call (w : world) (src dst round : N) (q : request) : world :=
-  w <| w_calls ::= fun l => l ++ [{| c_id := w_next_call w; c_src := src; c_dst := dst; c_round := round;
+Definition new_call (w : world) (src dst round gen : N) (q : request) : world :=
+  w <| w_calls ::= fun l => l ++ [{| c_id := w_next_call w; c_src := src; c_dst := dst; c_round := round; c_fgen := gen;
                                      c_req := q; c_resp := None; c_state := CPending |}] |>
     <| w_next_call ::= N.succ |>.
 
@@ -58,13 +59,13 @@ Definition step_task (w : world) (n : node) : world :=
       | TRv rid peer prevote =>
           match l_rv_send n0 rid peer prevote with
           | None => set_node w n0
-          | Some q => new_call (set_node w n0) (n_id n) peer rid (ReqRV q)
+          | Some q => new_call (set_node w n0) (n_id n) peer rid 0 (ReqRV q)
           end
       | TAe rid peer =>
           match l_ae_send n0 peer with
           | (n1, SentNothing) => set_node w n1
-          | (n1, SentAE q) => new_call (set_node w n1) (n_id n) peer rid (ReqAE q)
-          | (n1, SentIS q) => new_call (set_node w n1) (n_id n) peer rid (ReqIS q)
+          | (n1, SentAE q) => new_call (set_node w n1) (n_id n) peer rid (f_gen (get_follower n1 peer)) (ReqAE q)
+          | (n1, SentIS q) => new_call (set_node w n1) (n_id n) peer rid (f_gen (get_follower n1 peer)) (ReqIS q)
           end
       end
   end.
@@ -82,7 +83,7 @@ Definition run_handler (now : N) (n : node) (q : request) : node * option respon
 
 Definition step_deliver (w : world) (c : call) (dup : bool) : world :=
   match get_node w (c_dst c) with
-  | None => w
+  | None => if dup then w else set_call w (c <| c_state := CAnswered |>)   (* no such server: transport error *)
   | Some n =>
       if n_frozen n then (if dup then w else set_call w (c <| c_state := CWaiting |>)) else
       let '(n1, resp, parked) := run_handler (w_now w) n (c_req c) in
@@ -107,13 +108,13 @@ Definition step_reply (w : world) (c : call) (failed : bool) : world :=
       | ReqRV q, Some (RespRV p) => set_node w0 (l_rv_reply now n (c_round c) (c_dst c) (rv_prevote q) q p)
       | ReqRV _, _ => w0
       | ReqAE q, Some (RespAE p) =>
-          match l_ae_reply now n (c_round c) (c_dst c) q p with
+          match l_ae_reply now n (c_round c) (c_dst c) (c_fgen c) q p with
           | (n1, None) => set_node w0 n1
-          | (n1, Some isq) => new_call (set_node w0 n1) (n_id n) (c_dst c) (c_round c) (ReqIS isq)
+          | (n1, Some isq) => new_call (set_node w0 n1) (n_id n) (c_dst c) (c_round c) (f_gen (get_follower n1 (c_dst c))) (ReqIS isq)
           end
       | ReqAE _, _ => w0
-      | ReqIS q, Some (RespIS p) => set_node w0 (l_is_reply now n (c_dst c) q (Some p))
-      | ReqIS q, _ => set_node w0 (l_is_reply now n (c_dst c) q None)
+      | ReqIS q, Some (RespIS p) => set_node w0 (l_is_reply now n (c_dst c) (c_fgen c) q (Some p))
+      | ReqIS q, _ => set_node w0 (l_is_reply now n (c_dst c) (c_fgen c) q None)
       end
   end.
 
@@ -132,7 +133,7 @@ Definition label_node (l : label) (w : world) : option nid :=
   | LCrash n | LRestart n | LTask n | LElectionRun n | LCommit n | LApply n | LRo n | LInstallResume n => Some n
   | LDeliver c | LDup c => option_map c_dst (get_call w c)
   | LReply c | LFail c => option_map c_src (get_call w c)
-  | LBudget n _ | LPad n _ => Some n
+  | LBudget n _ | LPad n _ | LDefer n => Some n
   | LTick _ => None
   end.
 
@@ -195,6 +196,7 @@ Definition step (w : world) (l : label) : world :=
   | LRestart n => on_node w n (fun m => if role_eqb (n_role m) Shutdown then restart_after_crash now m else m)
   | LBudget n k => on_node w n (fun m => m <| n_budget := Some k |>)
   | LPad n k => on_node w n (fun m => m <| n_pad := k |>)
+  | LDefer n => on_node w n (fun m => m <| n_tasks := tl (n_tasks m) ++ firstn 1 (n_tasks m) |>)
   end.
 
 Definition run (w : world) (ls : list label) : world := fold_left step ls w.
@@ -232,7 +234,7 @@ Definition mk_node (id : nid) (et ld : N) : node :=
   {| n_id := id; n_et := et; n_ld := ld; n_pterm := 0; n_pvote := None; n_term := 0; n_vote := None;
      n_log := [entry0]; n_snaps := []; n_partial := None; n_open := true; n_role := Shutdown;
      n_commit := 0; n_applied := 0; n_lii := 0; n_lit := 0; n_conf := None; n_cconf := None; n_leader := None;
-     n_followers := []; n_pending := []; n_ro := []; n_should_verify := true; n_cfg_fid := None; n_hb_rounds := 0; n_lease := 0; n_contact := 0;
+     n_followers := []; n_fgen := 1; n_orphans := []; n_pending := []; n_ro := []; n_should_verify := true; n_cfg_fid := None; n_hb_rounds := 0; n_lease := 0; n_contact := 0;
      n_rounds := []; n_next_round := 0; n_tasks := []; n_cv := conds0; n_iswait := []; n_fsm := [];
      n_snap_every := 0; n_pad := 0; n_budget := None; n_frozen := false; n_out := Ok; n_results := []; n_applies := [] |}.
 
